@@ -467,7 +467,12 @@ class USBResetSequencer(Elaboratable):
                     # should re-initialize anyway). Move to the HS reset detect sequence.
                     with m.Else():
                         m.d.comb += self.bus_reset.eq(1)
-                        m.next = 'START_HS_DETECTION'
+
+                        # If we're limited to LS or FS, don't attempt a high-speed handshake.
+                        with m.If(self.low_speed_only | self.full_speed_only):
+                            m.next = 'IS_LOW_OR_FULL_SPEED'
+                        with m.Else():
+                            m.next = 'START_HS_DETECTION'
 
 
             # SUSPEND -- our device has entered USB suspend; we'll now wait for either a
